@@ -25,7 +25,7 @@ func (in *Interp) sideObj(v Value, kind string) *Obj {
 }
 
 func (in *Interp) emit(kind string, args ...string) {
-	in.path.events = append(in.path.events, Event{Kind: kind, Args: args})
+	in.path.events = append(in.path.events, Event{Kind: kind, Args: args, Tid: in.curTid()})
 }
 
 func (in *Interp) ctxCancelled(fr *frame, ctx *Obj) bool {
@@ -212,11 +212,13 @@ func (in *Interp) readFrame(fr *frame, src Value) Value {
 			return Tuple{(*Value)(nil), in.externalGlobalByName("io.EOF")}
 		case "block":
 			// the client is idle: the read returns only through a deadline
-			if raw.F["deadline"] != nil {
-				in.emit("read.timeout", in.connName(src))
-				return Tuple{(*Value)(nil), in.newError(CStr("i/o timeout"), nil)}
+			in.emit("read.begin", in.connName(src))
+			in.block("read "+in.connName(src), func() bool { return raw.F["deadline"] != nil || raw.F["closed"] != nil })
+			if raw.F["closed"] != nil {
+				return Tuple{(*Value)(nil), in.newError(CStr("read: use of closed network connection"), nil)}
 			}
-			in.end("blocked", "read on idle connection")
+			in.emit("read.timeout", in.connName(src))
+			return Tuple{(*Value)(nil), in.newError(CStr("i/o timeout"), nil)}
 		case "call":
 			in.call(fr, it.fn, nil, nil, false)
 		}
@@ -227,13 +229,12 @@ func registerEnvIntrinsics() {
 	I := intrinsics
 	// ---- sync ----
 	I["(*sync.Mutex).Lock"] = func(in *Interp, fr *frame, args []Value) (Value, bool) {
+		in.maybePreempt("sync")
 		o := in.sideObj(args[0], "mutex")
 		if o == nil {
 			fr.tpanic("nil-deref", in.runtimeError("invalid memory address or nil pointer dereference"))
 		}
-		if o.n != 0 {
-			in.end("blocked", "Lock of a held mutex at "+fr.where())
-		}
+		in.block("lock "+o.String(), func() bool { return o.n == 0 })
 		o.n = 1
 		in.emit("lock", o.String())
 		return nil, true
@@ -248,10 +249,9 @@ func registerEnvIntrinsics() {
 		return nil, true
 	}
 	I["(*sync.RWMutex).Lock"] = func(in *Interp, fr *frame, args []Value) (Value, bool) {
+		in.maybePreempt("sync")
 		o := in.sideObj(args[0], "rwmutex")
-		if o.n != 0 || o.b {
-			in.end("blocked", "Lock of a held rwmutex at "+fr.where())
-		}
+		in.block("lock "+o.String(), func() bool { return o.n == 0 && !o.b })
 		o.b = true
 		in.emit("lock", o.String())
 		return nil, true
@@ -266,10 +266,9 @@ func registerEnvIntrinsics() {
 		return nil, true
 	}
 	I["(*sync.RWMutex).RLock"] = func(in *Interp, fr *frame, args []Value) (Value, bool) {
+		in.maybePreempt("sync")
 		o := in.sideObj(args[0], "rwmutex")
-		if o.b {
-			in.end("blocked", "RLock of a write-held rwmutex at "+fr.where())
-		}
+		in.block("rlock "+o.String(), func() bool { return !o.b })
 		o.n++
 		in.emit("rlock", o.String())
 		return nil, true
@@ -284,6 +283,7 @@ func registerEnvIntrinsics() {
 		return nil, true
 	}
 	I["(*sync.WaitGroup).Add"] = func(in *Interp, fr *frame, args []Value) (Value, bool) {
+		in.maybePreempt("sync")
 		o := in.sideObj(args[0], "waitgroup")
 		d := in.concreteInt(fr, args[1], "WaitGroup.Add")
 		o.n += d
@@ -294,6 +294,7 @@ func registerEnvIntrinsics() {
 		return nil, true
 	}
 	I["(*sync.WaitGroup).Done"] = func(in *Interp, fr *frame, args []Value) (Value, bool) {
+		in.maybePreempt("sync")
 		o := in.sideObj(args[0], "waitgroup")
 		o.n--
 		if o.n < 0 {
@@ -303,13 +304,10 @@ func registerEnvIntrinsics() {
 		return nil, true
 	}
 	I["(*sync.WaitGroup).Wait"] = func(in *Interp, fr *frame, args []Value) (Value, bool) {
+		in.maybePreempt("sync")
 		o := in.sideObj(args[0], "waitgroup")
-		if o.n > 0 {
-			in.runPending(fr)
-		}
-		if o.n > 0 {
-			in.end("blocked", "WaitGroup.Wait with counter "+fmt.Sprint(o.n)+" at "+fr.where())
-		}
+		in.emit("wg.wait.begin", o.String())
+		in.block("wg.wait "+o.String(), func() bool { return o.n <= 0 })
 		in.emit("wg.wait", o.String())
 		return nil, true
 	}
@@ -339,6 +337,7 @@ func registerEnvIntrinsics() {
 	withCancel := func(in *Interp, fr *frame, args []Value) (Value, bool) {
 		o := newCtx(in, args[0])
 		cancel := &NativeFunc{Name: "cancel", Fn: func(in *Interp, a []Value) Value {
+			in.maybePreempt("cancel")
 			if !o.b {
 				o.b = true
 				in.emit("cancel", o.String())
@@ -840,10 +839,12 @@ func (in *Interp) objMethod(fr *frame, o *Obj, name string, args []Value) Value 
 					in.emit("accept.closed")
 					return Tuple{Iface{}, in.newError(CStr("accept tcp: use of closed network connection"), nil)}
 				}
-				acc := in.env.accepts
-				if in.env.n >= len(acc) {
-					in.end("blocked", "Accept with no pending client")
+				if in.env.n >= len(in.env.accepts) {
+					in.emit("accept.begin")
+					in.block("accept", func() bool { return inner.b || in.env.n < len(in.env.accepts) })
+					continue
 				}
+				acc := in.env.accepts
 				it := acc[in.env.n]
 				in.env.n++
 				switch it.kind {
